@@ -100,3 +100,83 @@ def inplace_effects(func_node, names, roots=()):
                     and n.args and hits(n.args[0]):
                 out.append((n, norm(n)[:70]))
     return out
+
+
+# ----------------------------------------------------------------------
+# inputs kept on self without a copy and later written in place
+def stored_input_aliases(prog, cls, depth=4):
+    """{attribute of self: (description, FuncInfo, node)} for attributes that are bound - directly, through a local,
+    or through helper methods of self that receive it - to an array belonging to an argument of a *public* method
+    (or of the constructor) of the class: `param`, `param.field`, or a view of them, without a copy.  Arguments of
+    private helpers count only when a public method hands them one of its own arguments."""
+    from .loader import demangle
+    methods = {}
+    for b in reversed([x for x in prog.mro(cls) if x is not None]):
+        for nme, fn in b.methods.items():
+            methods[nme] = fn
+    res = {}
+    seen = set()
+
+    def flow(fn, tainted, d, origin):
+        key = (fn.qualname, tuple(sorted(tainted)))
+        if key in seen or d < 0:
+            return
+        seen.add(key)
+        part_roots = set()
+        for n in walk_no_nested(fn.node):
+            if isinstance(n, ast.Attribute) and isinstance(n.ctx, ast.Load):
+                b = n
+                while isinstance(b, ast.Attribute):
+                    b = b.value
+                if isinstance(b, ast.Name) and b.id in tainted:
+                    part_roots.add(norm(n))
+        roots = set(tainted) | part_roots
+        al = aliases(fn.node, roots)
+
+        def is_alias(v):
+            return (isinstance(v, ast.Name) and (v.id in al or v.id in tainted)) or norm(v) in part_roots \
+                or _is_root(v, roots, al)
+        for n in walk_no_nested(fn.node):
+            if isinstance(n, ast.Assign) and is_alias(n.value):
+                for t in n.targets:
+                    if isinstance(t, ast.Attribute) and isinstance(t.value, ast.Name) and t.value.id == "self":
+                        res.setdefault(t.attr, ("%s (%s) in %s" % (norm(n.value), origin, fn.short), fn, n))
+            tgt = None
+            if isinstance(n, ast.Call) and isinstance(n.func, ast.Attribute) and isinstance(n.func.value, ast.Name) \
+                    and n.func.value.id == "self":
+                tgt = methods.get(demangle(fn, n.func.attr))
+            elif isinstance(n, ast.Call) and isinstance(n.func, ast.Attribute) and isinstance(n.func.value, ast.Call) \
+                    and isinstance(n.func.value.func, ast.Name) and n.func.value.func.id == "super" and fn.cls is not None:
+                tgt = prog.find_method(cls, n.func.attr, after=fn.cls)
+            if tgt is not None and tgt is not fn:
+                tps = [a.arg for a in tgt.node.args.args if a.arg != "self"]
+                passed = set()
+                for k, a in enumerate(n.args):
+                    if k < len(tps) and is_alias(a):
+                        passed.add(tps[k])
+                for kw in n.keywords:
+                    if kw.arg in tps and is_alias(kw.value):
+                        passed.add(kw.arg)
+                if passed:
+                    flow(tgt, passed, d - 1, origin)
+    for nme, fn in methods.items():
+        if nme.startswith("_") and nme != "__init__":
+            continue
+        params = {a.arg for a in fn.node.args.args if a.arg != "self"}
+        if params:
+            flow(fn, params, depth, "argument of %s" % fn.short)
+    return res, methods
+
+
+def inplace_writes_to_attributes(methods, attrs):
+    """[(FuncInfo, node, text)] of in-place writes (element store, in-place operator, writing numpy routine) to
+    self.<a> or to its raw storage self._<a> for a in attrs, in any of the methods"""
+    names = set()
+    for a in attrs:
+        names |= {"self.%s" % a, "self._%s" % a.lstrip("_"), "self.%s" % a.lstrip("_")}
+    out = []
+    for fn in methods.values():
+        al = aliases(fn.node, names)
+        for node, text in inplace_effects(fn.node, al, roots=names):
+            out.append((fn, node, text))
+    return out
